@@ -51,6 +51,11 @@ func detPool(inc string, yield func()) []pongo2.Context {
 		ctx["s"] = s
 		ctx["n"] = len(lst)
 		ctx["lst"] = lst
+		// arguments that are within the filters' limits in the healthy contexts and beyond them in the failing ones
+		ctx["bigdec"], ctx["bigpad"], ctx["plur"] = 2, 7, "y,ies"
+		if fail {
+			ctx["bigdec"], ctx["bigpad"], ctx["plur"] = 2000+d, 20000+d, "a,b,c"
+		}
 		ctx["maybe"] = func() (string, error) {
 			if yield != nil {
 				yield()
@@ -110,6 +115,9 @@ func detProgram(r *Rng) detProg {
 			"{% macro fm(a) %}{% firstof nothing \"<li&t>\" %}{{ a }}{{ \"<l>\" }}{% cycle \"<c>\" \"&\" %}{% filter cut:\"~\" %}{{ \"<f>\" }}{% endfilter %}{% endmacro %}{% if flag %}{% autoescape off %}{{ fm(s) }}{% endautoescape %}{{ fm(s) }}{% else %}{{ fm(s) }}{% autoescape off %}{{ fm(s) }}{% endautoescape %}{% endif %}",
 			"{% for v in z_ints %}{{ \"ab\"|center:v }}|{{ \"abcdef\"|slice:s }}|{{ 10|add:n }}|{{ \"\"|default:s }}|{{ 5|add:v }};{% endfor %}{{ \"x\"|ljust:n }}|{{ \"lit\"|add:s }}|{{ 3|add:d }}",
 			"{% widthratio n 3 100 as wr %}{{ wr|add:1 }}|{{ wr + 1 }}|{% if wr == 100 %}full{% endif %}{% with a=s %}{% ssi \"/ssipart.tpl\" parsed %}{% endwith %}[{{ a }}]{% autoescape off %}{% set inauto = s %}{% endautoescape %}[{{ inauto }}]",
+			"{{ 2.5|floatformat:bigdec }}|{{ s|center:bigpad }}|{{ n|pluralize:plur }}",
+			"\n\n  {{ s|ljust:bigpad }}{% for i in lst %}\n{{ i|rjust:bigpad }}{% endfor %}|{{ z_f64|floatformat:bigdec }}",
+			"{% filter rjust:bigpad %}x{% endfilter %}\n{{ \"y\"|ljust:bigpad }}\n\n{{ n|pluralize:plur }}",
 			"{{ n * 2 }}|{{ d * 1.5 }}|{{ z_int * 2 }}|{{ z_int / 4 }}|{{ z_f64 * n }}|{% for x in z_ints %}{{ x * d }};{% endfor %}",
 		}
 		k := 1 + r.Intn(3)
@@ -195,7 +203,82 @@ func detExecErr(tpl *pongo2.Template, ctx pongo2.Context, which int) (execResult
 	return execResult{out, errStr(err)}, err
 }
 
+// c04Overlap: two executions of one compiled template overlap in time (the first one is parked inside a context
+// function at the innermost point of a deep nesting while the second runs to completion). Neither notices the other.
+func c04Overlap(c *C) {
+	r := c.R
+	depth := r.Pick2([]int{3, 40, 300, 600, 900})
+	var sb strings.Builder
+	sb.WriteString("{% for i in lst %}{% cycle \"a\" \"b\" %}{% ifchanged i %}c{% endifchanged %}{% endfor %}")
+	kind := r.Intn(3)
+	for i := 0; i < depth; i++ {
+		switch kind {
+		case 0:
+			fmt.Fprintf(&sb, "{%% block n%d %%}", i)
+		case 1:
+			sb.WriteString("{% if flag %}")
+		default:
+			sb.WriteString("{% with w=n %}")
+		}
+	}
+	sb.WriteString("[{{ park() }}{{ s }}{% cycle 1 2 3 %}]")
+	for i := 0; i < depth; i++ {
+		sb.WriteString([]string{"{% endblock %}", "{% endif %}", "{% endwith %}"}[kind])
+	}
+	sb.WriteString("{% for i in lst %}{% cycle \"x\" \"y\" %}{% endfor %}tail")
+	src := sb.String()
+	set, _ := newSet(emptySetFiles)
+	tpl, err := set.FromString(src)
+	if err != nil {
+		c.Fail("fresh-compile-failed", D{"nesting": depth, "error": err.Error()})
+		return
+	}
+	mkCtx := func(s string, lst []string, park func() string) pongo2.Context {
+		return pongo2.Context{"s": s, "lst": lst, "n": len(lst), "flag": true, "park": park}
+	}
+	noPark := func() string { return "" }
+	// sequential references on a fresh compile
+	ref, _ := set.FromString(src)
+	wantA, eA := ref.Execute(mkCtx("A", []string{"1", "2", "2"}, noPark))
+	wantB, eB := ref.Execute(mkCtx("B", []string{"7"}, noPark))
+	if eA != nil || eB != nil {
+		c.Fail("fresh-compile-failed", D{"nesting": depth, "error": errStr(eA) + errStr(eB)})
+		return
+	}
+	entered, release := make(chan struct{}), make(chan struct{})
+	type res struct {
+		out string
+		err error
+	}
+	resA := make(chan res, 1)
+	go func() {
+		out, xerr := c01Exec(tpl, mkCtx("A", []string{"1", "2", "2"}, func() string { close(entered); <-release; return "" }), r.Intn(4))
+		resA <- res{out, xerr}
+	}()
+	select {
+	case <-entered:
+	case ra := <-resA:
+		c.Fail("history-dependent", D{"why": "the parked execution ended before reaching its innermost point", "output": q(truncStr(ra.out, 200)), "error": errStr(ra.err)})
+		return
+	}
+	outB, errB := c01Exec(tpl, mkCtx("B", []string{"7"}, noPark), r.Intn(4))
+	close(release)
+	ra := <-resA
+	c.Eval(4)
+	if errB != nil || outB != wantB || ra.err != nil || ra.out != wantA {
+		c.Fail("history-dependent", D{"nesting_depth": depth, "nesting_kind": []string{"block", "if", "with"}[kind], "why": "two overlapping executions of one compiled template (the first parked at its innermost point while the second ran)",
+			"second_execution": D{"out": q(truncStr(outB, 300)), "err": errStr(errB), "alone": q(truncStr(wantB, 300))}, "first_execution": D{"out": q(truncStr(ra.out, 300)), "err": errStr(ra.err), "alone": q(truncStr(wantA, 300))}})
+		return
+	}
+	c.Cover("overlapping_executions")
+	c.Nontrivial(fmt.Sprintf("overlap:%d:%d", depth, kind))
+}
+
 func c04Run(c *C) {
+	if c.Idx%40 == 11 {
+		c04Overlap(c)
+		return
+	}
 	r := c.R
 	p := detProgram(r)
 	opt := r.Intn(4)
